@@ -152,6 +152,10 @@ def analyse(sh, items):
                 key = 'ADDR/%s/%s/%s' % ('a16' if 0x67 in ins.prefix else 'a32', 'scaled' if scaled else 'unscaled', rule)
                 if '#' in mname or mname in ('movq', 'pmovmskb'):
                     key += '/mmx-sse-operand'
+                elif mname in ('les', 'lds', 'lfs', 'lgs', 'lss'):
+                    key += '/far-pointer-load'
+                else:
+                    key += '/' + mname          # an address built by the instruction's own lifter: keyed by mnemonic
             elif mname.startswith('f') and mname not in ('femms',):
                 # x87: one mechanism per (rule, destination), whatever the mnemonic (shared push/pop/compare helpers)
                 m = re.match(r'^(\S+) (?:assigned twice|receives|= )', detail)
